@@ -290,12 +290,7 @@ def cfg_rule(ctx: Ctx, rid: str = "R03.cfg") -> None:
             form["addrs"][0][1] in {w.format(i="_c0") for w in WORD_ADDRS}
         r.check(ok, f"{cn}.{helper}", f.loc(), f"{cn}.{helper} does not read block_alinged_address + 4*i for every i "
                 "in range(num_words_in_block)", None if form is None else {"iter": form["iter"], "elt": form["elt"]})
-    f = m.method("WriteBackMemorySystem", "_write_block_to_memory")
-    wf = writeback_form(m, f)
-    ok = wf is not None and wf["recv"] == "P0.memory" and wf["cond"] == "LOOP1" and wf["value"] == "ELEM1.0(enumerate(P2))[1]" and \
-        wf["address"] in {w.format(i="ELEM1.0(enumerate(P2))[0]") for w in WORD_ADDRS}
-    r.check(ok, "WriteBackMemorySystem._write_block_to_memory", f.loc(),
-            "_write_block_to_memory does not write word i of the block to block_alinged_address + 4*i", wf)
+    writeback_rule(ctx, r)
     # num_words_in_block = 2**num_block_bits ; num_sets = 2**num_index_bits ; set selected by cache_set_index
     from ..parsershape import normal_flow
     ci = m.method("Cache", "__init__")
@@ -316,10 +311,7 @@ def cfg_rule(ctx: Ctx, rid: str = "R03.cfg") -> None:
         f = m.method("Cache", name, own=True)
         r.check("self.sets[decoded_address.cache_set_index]" in " ".join(ast.unparse(f.node).split()), f"Cache.{name}", f.loc(),
                 f"Cache.{name} does not select the set by decoded_address.cache_set_index")
-    f = m.method("CacheSet", "get_block_index", own=True)
-    txt = " ".join(ast.unparse(f.node).split())
-    r.check("block.valid_bit and block.decoded_address.tag == address.tag" in txt, "CacheSet.get_block_index", f.loc(),
-            "hit decision is no longer `valid and tag equal`")
+    block_index_rule(ctx, r)
     r.floor(9)
 
 
@@ -335,6 +327,57 @@ def run(ctx: Ctx) -> None:
     addr_rule(ctx)
     cfg_rule(ctx)
     wiring_rule(ctx, "R03.wire", which=("data",), fields=("num_index_bits", "num_block_bits", "associativity", "replacement_strategy"))
+    source_rule(ctx)
+
+
+def writeback_rule(ctx: Ctx, r) -> None:
+    """A displaced block goes back word by word: word i, unconditionally, to block_alinged_address + 4*i of the lower memory."""
+    m = ctx.model
+    from ..cacheshape import WORD_ADDRS, writeback_form
+    f = m.method("WriteBackMemorySystem", "_write_block_to_memory")
+    wf = writeback_form(m, f)
+    ok = wf is not None and wf["recv"] == "P0.memory" and wf["cond"] == "LOOP1" and wf["value"] == "ELEM1.0(enumerate(P2))[1]" and \
+        wf["address"] in {w.format(i="ELEM1.0(enumerate(P2))[0]") for w in WORD_ADDRS}
+    r.check(ok, "WriteBackMemorySystem._write_block_to_memory", f.loc(),
+            "_write_block_to_memory does not write every word i of the block (unconditionally) to block_alinged_address + 4*i", wf)
+
+
+def block_index_rule(ctx: Ctx, r) -> None:
+    """The hit decision of a set: the first way (of all ways) that is valid and holds the tag -- on the normal form, so a search
+    loop, next(generator) or a comprehension are one thing, while a search that stops early or skips ways is not."""
+    from ..parsershape import normal_flow
+    m = ctx.model
+    f = m.method("CacheSet", "get_block_index", own=True)
+    fl = normal_flow(m, f)
+    got = [(fl.canon(x.value), fl.canon_cond(x.cond)) for x in fl.returns]
+    want = ("next(GeneratorExp(_c0 for (_c0, _c1) in enumerate(P0.blocks) if BOOL[Eq(P1.tag, _c1.decoded_address.tag); _c1.valid_bit]#8), None)", "TRUE")
+    r.check(got == [want], "CacheSet.get_block_index", f.loc(),
+            f"hit decision is no longer `the first of all ways that is valid and holds the tag` (recovered: {got})")
+
+
+def source_rule(ctx: Ctx) -> None:
+    """What a cached read returns is the addressed lane of the block the set lookup (or the fill) delivered *for this access*:
+    <width>_from_block(block=_read_block(decode(address))[0], decoded_address=decode(address)) -- no remembered block, no
+    second source.  The lookups themselves are compared with their reference formulation (as in C09: R09.hit)."""
+    import re as _re
+    from ..parsershape import normal_flow
+    m = ctx.model
+    r = ctx.rule("R03.src", "a cached read returns the lane of the block looked up for this access")
+    D = "P0._decode_address(address=P1)"
+    for n, fn in (("read_byte", "byte_from_block"), ("read_halfword", "halfword_from_block"), ("read_word", "word_from_block")):
+        f = m.method("BaseCacheMemorySystem", n)
+        fl = normal_flow(m, f)
+        got = [(_re.sub(r"@\d+", "", fl.canon(x.value)), fl.canon_cond(x.cond)) for x in fl.returns]
+        want = [(f"{fn}(block=P0._read_block(decoded_address={D})[0], decoded_address={D})", "TRUE")]
+        r.check(got == want, f"BaseCacheMemorySystem.{n}", f.loc(), f"{n} returns `{got}`; it must return {fn}(<block delivered by _read_block for this "
+                "address>, <decoded address>): a block remembered from an earlier access goes stale when it is displaced and refetched")
+    from .c09 import READ_BLOCK_REFS
+    from ..flowspec import compare
+    for cn in ("WriteBackMemorySystem", "WriteThroughMemorySystem"):
+        f = m.method(cn, "_read_block")
+        compare(r, m, f, READ_BLOCK_REFS[cn], f"{cn}._read_block",
+                what="returns (cached block, True) on a hit and (block filled from below, False) on a miss, allocating the fill")
+    r.floor(5)
 
 
 def alloc_rule(ctx: Ctx, rid: str) -> None:
